@@ -145,6 +145,10 @@ def judge_single(tval, bval, mode, vr=False):
     return n, out, ("unchanged" if base["result"] and base["result"][1] and base["out"] == b"" and False else None)
 
 
+LENIENT = [("rgba(0, 0, 0, 50)", "#ffffff"), ((30, 60, 90, 35), "white"), ("#555555", "rgba(200, 200, 200, 80)"), ("119, 119, 119", "white"),
+           ("(119, 119, 119)", "#fff"), ("rgb 119 119 119", "#fff"), ((0.5, 0.5, 0.5), (1.0, 1.0, 1.0)), ((240, 1.0, 0.2), "white"),
+           ("rgba(0, 0, 0, 50%)", "white"), ("hsla(0, 0%, 0%, 40)", "white"), (("119", "119", "119"), "white"), ([119, 119, 119, 0.5], [255, 255, 255]),
+           ("rgb(119 119 119 / 0.5)", "white"), ("  #777  ", " WHITE "), ("rgba(0,0,0,1.0)", "rgba(255,255,255,100)")]
 ENTRIES = [("#777", "#fff"), ((119, 119, 119), (0, 0, 0), True), ("hsl(240, 100%, 2%)", "white"), ("yellow", "white"),
            ("rgba(0,0,0,0.4)", (250, 240, 20)), ("bogus", "white"), ("rgb(200, 200, 100)", "#fff")]
 
@@ -220,6 +224,9 @@ def run(ctx):
         sj.append((tval, bval, (0, 1, 2)))
     if ctx.quick:
         sj = sj[::2]
+    # spellings the library accepts beyond CSS (informal lists, bare alpha percentages, float / HSL tuples): equally silent
+    for tv, bv in LENIENT:
+        sj.append((tv, bv, (0, 1, 2)))
     n = 0
     for cnt, vs in ctx.pmap_forked(chunk_single, sj, chunksize=2):
         n += cnt
